@@ -98,6 +98,12 @@ TEXT = [
 ]
 
 
+# a recorded finding: (definitions, repeated call) whose repeated calls differ on the unchanged tree
+KNOWN_TEXT = {
+    ('def mk(p) { return fun[p]() { var t = p; t += "x"; return t } }; global lam = mk("a" + "b")', "lam()"): "known:return-value-flag-on-parameter",
+}
+
+
 def refview(v):
     return (v["oc"], tuple(v["out"]), v["v"] if v["oc"] == "val" else "")
 
@@ -174,7 +180,10 @@ def run(ck, tier, seed):
         texts[str(c["id"])] = segt
         for parser in ("opt", "noopt"):
             dcases.append({"id": f"{c['id']}.{parser}", "p": parser, "to": 30, "steps": steps})
-    for i, (defs, call) in enumerate(TEXT):
+    known_ids = {}
+    for i, (defs, call) in enumerate(TEXT + list(KNOWN_TEXT)):
+        if (defs, call) in KNOWN_TEXT:
+            known_ids[f"t{i}"] = KNOWN_TEXT[(defs, call)]
         steps = [{"op": "peval", "src": HELP + defs, "key": "defs"}]
         # interleave the repeated call (same tree and fresh trees) with another function's calls
         steps += [{"op": "peval", "src": call, "key": "call"}, {"op": "peval", "src": "bump(idf(1) + 0)"}, {"op": "peval", "src": call, "key": "call"},
@@ -215,7 +224,7 @@ def run(ck, tier, seed):
                 ck.nontrivial.add((views[0][0], len(views[0][1]), cid[0] == "t"))
                 for j, v in enumerate(views[1:], 1):
                     if v != views[0]:
-                        ck.violation(f"rerun:{name}:{parser}", f"[{parser}] call #{j + 1} of `{segt[idx[0]]}` gives {v[1]} -> {v[0]} {v[2]}, call #1 gave {views[0][1]} -> {views[0][0]} {views[0][2]}; "
+                        ck.violation(known_ids.get(cid) or f"rerun:{name}:{parser}", f"[{parser}] call #{j + 1} of `{segt[idx[0]]}` gives {v[1]} -> {v[0]} {v[2]}, call #1 gave {views[0][1]} -> {views[0][0]} {views[0][2]}; "
                                      f"definitions: {segt[0][-600:]}", {"segments": segt, "parser": parser, "calls": views})
                         break
             # (3) agreement with the reference
